@@ -4,6 +4,7 @@
 #include <rapidcheck.h>
 
 #include "elem.hpp"
+#include "fp_model.hpp"
 
 namespace xsv
 {
@@ -129,6 +130,60 @@ namespace xsv
         return visited;
     }
 
+    // arithmetic progression of lane bit patterns: start, start+stride, ... (count values), unary ops
+    inline void sweep_range(Context& cx, const OpDef& d, TypeId t, const Resolved& r, uint64_t start, uint64_t stride, uint64_t count)
+    {
+        auto groups = by_lanes(r);
+        std::string gname = d.name + ":" + kTypeNames[t];
+        const int eb = kTypeBytes[t];
+        for (auto& g : groups)
+        {
+            const int n = g.first;
+            for (uint64_t base = 0; base < count; base += n)
+            {
+                ElemCase c;
+                c.op = &d;
+                c.type = t;
+                for (int l = 0; l < n; ++l)
+                {
+                    uint64_t v = start + ((base + l) % count) * stride;
+                    put_lane(c.in[0], eb, l, v);
+                }
+                if (g_case_filter)
+                    g_case_filter(c);
+                run_case(cx, c, g.second);
+                cx.st.per_group[gname]++;
+            }
+        }
+    }
+
+    // dense list for unary floating ops: lattice neighbours, k/2 +- ulps, powers of two +- ulps
+    template <class T>
+    inline std::vector<uint64_t> fp_unary_list_t()
+    {
+        using U = typename model::fpt<T>::U;
+        std::set<uint64_t> s;
+        auto around = [&](T v, int w) {
+            U u = model::bits(v);
+            for (int k = -w; k <= w; ++k)
+            {
+                s.insert((uint64_t)(U)(u + (U)k));
+                s.insert((uint64_t)(U)((u + (U)k) ^ model::fpt<T>::sign));
+            }
+        };
+        for (uint64_t b : fp_lattice(type_id<T>::value))
+            around(model::from_bits<T>((U)b), 3);
+        for (int k = 0; k <= 260; ++k)
+            around((T)k / 2, 2);
+        for (int e = model::fpt<T>::emin - model::fpt<T>::mant; e <= model::fpt<T>::emax; ++e)
+            around(std::ldexp((T)1, e), 2);
+        for (int e : { 21, 22, 23, 24, 30, 31, 32, 51, 52, 53, 62, 63, 64 })
+            for (int k = -6; k <= 6; ++k)
+                around((T)(std::ldexp((T)1, e) + (T)k * (T)0.5), 1);
+        return std::vector<uint64_t>(s.begin(), s.end());
+    }
+    inline std::vector<uint64_t> fp_unary_list(TypeId t) { return t == F32 ? fp_unary_list_t<float>() : fp_unary_list_t<double>(); }
+
     inline std::vector<int64_t> imm_values(const OpDef& d, TypeId t)
     {
         std::vector<int64_t> r;
@@ -202,6 +257,13 @@ namespace xsv
                 auto m = *rc::gen::container<std::vector<bool>>((size_t)nmax, rc::gen::arbitrary<bool>());
                 for (int l = 0; l < nmax; ++l)
                     c.in[i][l] = m[l] ? 1 : 0;
+            }
+            else if (d.kind[i] == K_IEXP)
+            {
+                const int emax = t == F32 ? 127 : 1023, emin = t == F32 ? -126 : -1022;
+                auto v = *rc::gen::container<std::vector<int>>((size_t)nmax, sized(rc::gen::weightedOneOf<int>({ { 3, rc::gen::inRange<int>(emin, emax + 1) }, { 2, rc::gen::inRange<int>(-40, 41) }, { 1, rc::gen::elementOf(std::vector<int> { emin, emin + 1, emax - 1, emax, 0, 1, -1 }) } })));
+                for (int l = 0; l < nmax; ++l)
+                    put_lane(c.in[i], s, l, (uint64_t)(int64_t)v[l]);
             }
             else if (d.kind[i] == K_COUNT)
             {
